@@ -367,3 +367,74 @@ func init() {
 		fmt.Println("REPLAY: not-reproduced")
 	}
 }
+
+// refValidTag is the tag language of the property statement, written independently of the code:
+// ^_?[a-z0-9]+(_[a-z0-9]+){0,3}$ with 3 <= len <= 36.
+func refValidTag(t string) bool {
+	if len(t) < 3 || len(t) > 36 {
+		return false
+	}
+	body := strings.TrimPrefix(t, "_")
+	parts := strings.Split(body, "_")
+	if len(parts) < 1 || len(parts) > 4 {
+		return false
+	}
+	for _, p := range parts {
+		if p == "" {
+			return false
+		}
+		for i := 0; i < len(p); i++ {
+			c := p[i]
+			if !(c >= 'a' && c <= 'z') && !(c >= '0' && c <= '9') {
+				return false
+			}
+		}
+	}
+	return true
+}
+
+func init() {
+	replayers["isValidTag"] = func(in map[string]any) {
+		tag := rBytes(in["tag"])
+		if isValidTag(tag) != refValidTag(tag) {
+			fmt.Printf("REPLAY: confirmed isValidTag(%q) = %v, the documented language says %v\n", tag, isValidTag(tag), refValidTag(tag))
+			return
+		}
+		// bounded search: all strings of length <= 7 over a small alphabet, plus long segment compositions
+		alpha := []byte{'a', '0', '_', '-', 'A', 'z'}
+		var rec func(prefix []byte, n int) bool
+		rec = func(prefix []byte, n int) bool {
+			if isValidTag(string(prefix)) != refValidTag(string(prefix)) {
+				fmt.Printf("REPLAY: confirmed (bounded search, length <= 7 over %q) isValidTag(%q) = %v, want %v\n", alpha, prefix, isValidTag(string(prefix)), refValidTag(string(prefix)))
+				return true
+			}
+			if n == 0 {
+				return false
+			}
+			for _, c := range alpha {
+				if rec(append(prefix, c), n-1) {
+					return true
+				}
+			}
+			return false
+		}
+		if rec(nil, 7) {
+			return
+		}
+		for segs := 1; segs <= 6; segs++ {
+			for _, lead := range []string{"", "_"} {
+				for total := 30; total <= 38; total++ {
+					t := lead + strings.Repeat("ab_", segs-1)
+					if len(t) < total {
+						t += strings.Repeat("c", total-len(t))
+					}
+					if isValidTag(t) != refValidTag(t) {
+						fmt.Printf("REPLAY: confirmed (bounded search) isValidTag(%q) = %v, want %v\n", t, isValidTag(t), refValidTag(t))
+						return
+					}
+				}
+			}
+		}
+		fmt.Println("REPLAY: not-reproduced")
+	}
+}
